@@ -23,7 +23,7 @@ for d in sorted(x for x in (VERIF / 'seeded').glob('C*-*') if x.is_dir()):
     rows.append((meta['id'], meta['breaks_property'], (meta.get('needs_to_manifest') or '').replace('|', '/').replace('\n', ' ')[:260],
                  ('; '.join(f"{k} ({', '.join(v)})" for k, v in sorted(fired.items())) or 'NOT DETECTED') + note))
 out = ['# Seeded changes and the checks that report them', '',
-       'Each change was produced by an independent sub-agent that saw only the property text (rounds: a,b / c,d / e,f / g,h),',
+       'Each change was produced by an independent sub-agent that saw only the property text (seven rounds: a,b / c,d / e,f / g,h / i,j / k,l / m,n; first-sight numbers per round in DESIGN.md section 9),',
        'confirmed here (demo fails with the patch, passes without; patch compiles) and then run against every registered quick',
        'check (scratch copy of /repo HEAD per change, `tools/seeded_quick.py --all`).', '',
        f'{len(rows)} changes; not reported by any check: {any_miss or "none"}; reported, but not by the check of the property the '
